@@ -202,7 +202,10 @@ def boundary_conventions(report, results, coverage):
         pts3 = [(0, 0, 1), (0, 0, -1), (1, 0, 0), (0, 1, 0), (0, 0, 0.0), (1, 1, 1e-300), (1e-200, 0, 1), (-1, 0, -1)]
         for p in pts3:
             base = vector.obj(x=p[0], y=p[1], z=p[2])
-            for v in (base, base.to_rhophiz(), base.to_xytheta(), base.to_rhophieta(), base.to_xyeta(), base.to_rhophitheta()):
+            # a vector on the z axis is not representable with theta/eta storage (statement of C01): only z storage there
+            forms = (base, base.to_rhophiz()) if (abs(p[0]) < 1e-100 and abs(p[1]) < 1e-100) else \
+                (base, base.to_rhophiz(), base.to_xytheta(), base.to_rhophieta(), base.to_xyeta(), base.to_rhophitheta())
+            for v in forms:
                 n += 1
                 th = v.theta
                 if not (math.isnan(th) or 0 <= th <= math.pi) or not (v.mag >= 0 and v.mag2 >= 0):
